@@ -1,6 +1,6 @@
 (* C08 model: s-expression interface (run_C08).  Executable definitions only. *)
 From Coq Require Import List ZArith String Ascii Bool Arith.
-From Verif Require Import Lib.Sexp Gen.C08_tables Model.C08_json Model.C08_full Model.C08_text.
+From Verif Require Import Lib.Sexp Gen.C08_tables Model.C08_json Model.C08_full Model.C08_text Model.C08_links Model.C08_hook.
 Import ListNotations.
 Open Scope string_scope.
 Open Scope list_scope.
@@ -191,7 +191,7 @@ Definition sx_decoded (r : res pv) : sexp :=
   end.
 
 Definition flags (t : tree) : sexp :=
-  SList [of_bool (rep t); of_bool (gap_doc t); of_bool (gap_expr t); of_bool (has_docstring t)].
+  SList [of_bool (rep t); of_bool (gap_doc t); of_bool (gap_expr t); of_bool (has_docstring t); of_bool (canon_tree t)].
 
 Definition run_tree (t : tree) : sexp :=
   let j := enc_min t in
@@ -234,7 +234,7 @@ Definition sx_tres (r : tres) : sexp :=
 (* pathlib on one (normalised) path string and a base: [str(Path(s)); relative_to(base)?; parent; parent.parent] *)
 Definition run_path (base s : string) : sexp :=
   SList [SStr (unparts (parts s));
-         of_opt (fun r => SStr (unparts r)) (strip_parts (parts base) (parts s));
+         of_opt (fun r => SStr (unparts r)) (relative_parts (parts base) (parts s));
          SStr (unparts (parent_parts (parts s)));
          SStr (unparts (parent_parts (parent_parts (parts s))))].
 
@@ -252,8 +252,9 @@ Definition run_C08 (s : sexp) : sexp :=
       else if String.eqb cmd "tree" then match dx_tree a with Some t => run_tree t | None => bad_input end
       else if String.eqb cmd "json" then match dx_json a with Some j => sx_decoded (decode j) | None => bad_input end
       else if String.eqb cmd "dumps" then match dx_json a with Some j => SStr (dumps j) | None => bad_input end
+      else if String.eqb cmd "dumps-cli" then match dx_json a with Some j => SStr (dumps_cli j) | None => bad_input end
       else if String.eqb cmd "loads" then match a with SStr x => sx_pres (loads x) | _ => bad_input end
-      else if String.eqb cmd "loads-decode" then match a with SStr x => sx_tres (loads_decode x) | _ => bad_input end
+      else if String.eqb cmd "loads-decode" then match a with SStr x => sx_tres (loads_hook x) | _ => bad_input end
       else if String.eqb cmd "expr" then
         match dx_ev a with
         | Some e => SList [sx_json (enc_ev e); sx_decoded (decode (enc_ev e)); of_bool (wf_slot e); of_bool (has_enum e);
